@@ -337,9 +337,12 @@ def opaque_loop(I, st, env):
     names, attrs, mutated = assigned_names(st.body)
     tn, _, _ = assigned_names([ast.Assign(targets=[st.target], value=ast.Constant(0))])
     tracked = I.V.tracked_calls(I.frame.qual)
+    returns = []
     for n in ast.walk(ast.Module(body=st.body, type_ignores=[])):
-        if isinstance(n, (ast.Return, ast.Yield, ast.YieldFrom)):
-            raise Unsupported(f"loop over an unknown iterable at line {st.lineno} contains return/yield")
+        if isinstance(n, (ast.Yield, ast.YieldFrom)):
+            raise Unsupported(f"loop over an unknown iterable at line {st.lineno} contains yield")
+        if isinstance(n, ast.Return):
+            returns.append(n)
         if isinstance(n, ast.Call):
             fn = ast.unparse(n.func)
             if any(fn == t or fn.endswith("." + t) for t in tracked):
@@ -356,6 +359,13 @@ def opaque_loop(I, st, env):
         else:
             env.vars[nm] = Opaque(nm)
     I.V.havoc_call(I, f"<loop body at line {st.lineno}>", [], {}, st)
+    # the unknown iterations may leave through any `return` of the body (with the loop variables unknown)
+    for rn in returns:
+        if I.ctx.choose():
+            continue
+        for nm in tn:
+            env.set(nm, Opaque(nm))
+        raise ReturnSig(I.eval(rn.value, env) if rn.value is not None else None)
 
 
 def s_While(I, st, env):
